@@ -18,9 +18,6 @@ NOT_APPLICABLE = {   # id -> reason, for properties that are deliberately not cl
            "responses need exactly the instances that do not finish (cut after a payload); zck_dl.c's libcurl loop is FFI.",
     "C11": "Same composition as C04 plus a symbolic crash point and a restart; rests on C09 (validity is recomputed from bytes for ANY on-disk state, incl. the "
            "truncated-file defects fixed here) and C05/C08, which are decided; the crash/restart loop itself is not encoded.",
-    "C16": "Automatic chunk boundaries are data-dependent control flow (the rolling hash of the content decides where zck_write ends a chunk): with symbolic content every "
-           "byte forks the writer state (the fork/merge explosion measured on the reader), and with concrete content the comparison of two runs is a plain test, not a solver "
-           "verdict.  The writer path is also the part that did not finish for C01.",
     "C19": "The property is about thread interleavings.  CBMC's thread encoding reported SUCCESS on two deliberately racy toy programs and goto-instrument --race-check "
            "aborts on function-local statics (DESIGN.md 2.6 #18), so no interleaving can be decided by the solver here; the remaining reduction (inventory of "
            "static-lifetime objects from the symbol table) is a syntactic analysis, not a solver verdict, and is therefore not offered as a check of this family.",
